@@ -48,6 +48,12 @@ def handle (op : String) (a : Json) : Except String Json := do
     -- keys of the distinct objects reachable from a collection, per kind
     let c : Collection ← fromJson? (← fld a "collection")
     return kindTable (fun k => (reachKeys c.trav k).eraseDups)
+  | "reach_history" =>
+    let steps ← fldArr a "steps"
+    let outs ← steps.mapM fun st => do
+      let c : Collection ← fromJson? (← fld st "collection")
+      pure (kindTable (fun k => (reachKeys c.trav k).eraseDups))
+    return arrJ outs
   | "adapter_ops" =>
     -- an operation sequence on a fresh `UserAdapter` / `TagAdapter` (operational model of adapters.py)
     let ops ← fldArr a "ops"
